@@ -74,39 +74,39 @@ type FnCtx struct {
 	results   []*types.Var // named or synthesized
 	resNames  []string
 
-	strConsts map[string]T      // string literal -> array const
-	constRgn  map[string]int    // global []byte var name -> region id (negative)
-	constRgnS map[int]string    // region id -> content
-	errCodes  map[string]int    // sentinel error name -> code
-	specDecl  map[string]bool   // recursive spec functions declared
-	nobj      int
-	defers    []deferred
-	breakStk  []*jumpTarget
-	oblNames  map[string]int
-	havocs    int
-	mapsUsed  bool // the body touches entries of an integer map (maps.go): calls may change them
-	notes     []string
-	assumptions map[string]bool
-	maintainN   int
-	calleeUsed  map[string]bool
-	addrTaken   map[types.Object]bool
-	retCount    int
-	inLoopBody  int
-	litDepth    int
-	curFn       []*funcFrame
-	structDepth int
-	fieldPtrs   map[string]loc
-	curScopeNode ast.Node
-	inQuant     int
-	lit         *ast.FuncLit
-	curEnv      *specEnv
-	expandQuant bool
-	relied      map[string]bool // properties whose clauses are assumed (not asserted) in this run
-	rangeIdx    []*types.Var
+	strConsts      map[string]T    // string literal -> array const
+	constRgn       map[string]int  // global []byte var name -> region id (negative)
+	constRgnS      map[int]string  // region id -> content
+	errCodes       map[string]int  // sentinel error name -> code
+	specDecl       map[string]bool // recursive spec functions declared
+	nobj           int
+	defers         []deferred
+	breakStk       []*jumpTarget
+	oblNames       map[string]int
+	havocs         int
+	mapsUsed       bool // the body touches entries of an integer map (maps.go): calls may change them
+	notes          []string
+	assumptions    map[string]bool
+	maintainN      int
+	calleeUsed     map[string]bool
+	addrTaken      map[types.Object]bool
+	retCount       int
+	inLoopBody     int
+	litDepth       int
+	curFn          []*funcFrame
+	structDepth    int
+	fieldPtrs      map[string]loc
+	curScopeNode   ast.Node
+	inQuant        int
+	lit            *ast.FuncLit
+	curEnv         *specEnv
+	expandQuant    bool
+	relied         map[string]bool // properties whose clauses are assumed (not asserted) in this run
+	rangeIdx       []*types.Var
 	staticRecvName string
-	siteOrd     map[*ast.CallExpr]map[string]int
-	frame       frameAllow
-	curPos      token.Pos
+	siteOrd        map[*ast.CallExpr]map[string]int
+	frame          frameAllow
+	curPos         token.Pos
 }
 
 // isOpaqueStruct: library structs whose fields are never inspected (time.Time, sync.Mutex, ...).
